@@ -43,7 +43,7 @@ ASSUMPTIONS = [
     "(attribute of None, list index, `.pop()` of an empty set, missing match case) are invisible to it and covered only by the search",
 ]
 UNMODELLED = [
-    "the checker as a whole: C02 itself is not a theorem; 100 of the 120 inventoried internal-failure sites have no model and are "
+    "the checker as a whole: C02 itself is not a theorem; 113 of the 120 inventoried internal-failure sites have no theorem and are "
     "exercised only by the search (numbers in coverage.sites)",
     "type checking of arguments inside type_check_args (only its arity skeleton is modelled); types in visit_Name",
     "lowering (compiler/*), tracing (tracing/*), type parsing, std-library call checkers: search only",
@@ -54,22 +54,23 @@ TRUSTED_EXTRA = [
     "c02_harvest.py (generators, harvest of /repo's tests)",
 ]
 MANIFEST = {
-    "level_text": "PARTIAL. C02 itself (no non-Guppy exception escapes check/compile for any program) is NOT proved; it is SEARCHED: "
-    "~10^4 (quick) / ~2.4*10^5 (thorough) programs per run through the real check()+lowering - /repo's ~480 tests/error programs and "
-    "~560 integration tests harvested and run against /repo's own sources, AST mutants of them, generated functions and mutants, a "
-    "std-call sweep - with crash / unrenderable diagnostic / span outside the program / hang as failing inputs (23 such crashes were found "
-    "this way and fixed in 20 commits; their witnesses are re-run first). What Lean proves: (a) inventory theorems over a table regenerated "
-    "from /repo's sources on every run: every assert / raise InternalGuppyError / non-Guppy raise / assert_never / zip(strict) / local-dict "
-    "subscript in the 8 anchored checker files is classified in the committed Spec (`sites_classified`, `id_lists_faithful`, "
-    "`classification_functional`), so a NEW site breaks the proof; 20 of 120 sites are `guarded` by an existing theorem (C08 "
-    "no_internal_error, C03 two_successors_have_pred / bld_residual / break_continue_target_innermost_loop, and the two below), 100 are "
-    "`unmodelled` (reported in evidence); (b) component theorems, for all inputs, on small models of three checker components: "
-    "`typeCheckArgs_never_internal` + `typeCheckArgs_spec` + `zipStrict_internal_iff` (check_num_args makes the strict zip's ValueError "
-    "unreachable), `visitName_internal_iff` + `block_names_resolved` + `succ_names_resolved` + `program_analysis_user_errors_only` "
-    "(after check_bb's program analysis no read reaches visit_Name's InternalGuppyError, entry and successor blocks), "
-    "`rows_same_keys_partial` + `output_rows_match_acceptable` (check_rows_match's KeyError). Models tied by correspondence to the real "
-    "type_check_args / visit_Name / check() on generated inputs.",
-    "level_note": "The theorems cover 3 small components and a syntactic inventory; they say nothing about the other ~100 internal sites, "
+    "level_text": "PARTIAL. C02 ITSELF IS ESTABLISHED BY SEARCH, NOT BY PROOF: 'no non-Guppy exception escapes check/compile, the diagnostic "
+    "renders, its spans lie in the program' is tested on ~1.3*10^4 (quick) / ~2.8*10^5 (thorough) programs per run through the real "
+    "check()+lowering: /repo's ~480 tests/error programs and ~560 integration tests harvested and run against /repo's own sources, AST "
+    "mutants of them, generated functions and mutants, a std-call sweep, 13 source-file layouts, generated generic entities whose type "
+    "the diagnostic must print; crash / unrenderable diagnostic / span outside the program / hang are failing inputs (23 such crashes "
+    "were found this way and fixed in 20 commits; their witnesses are re-run first). Lean covers 7 OF THE 120 internal-failure sites: "
+    "(a) inventory theorems over a table regenerated from /repo's sources on every run - every assert / raise InternalGuppyError / "
+    "non-Guppy raise / assert_never / zip(strict) / local-dict subscript in the 8 anchored checker files is classified in the committed "
+    "Spec (`sites_classified`, `id_lists_faithful`, `classification_functional`), so a NEW site breaks the proof; 7 sites are `guarded` by "
+    "a theorem whose statement is about exactly that failure (C08 no_internal_error: 2 KeyError sites of check_rows_match; C03 "
+    "two_successors_have_pred: 3 branch_pred asserts; C02 typeCheckArgs_never_internal: the strict zip of type_check_args; C02 "
+    "block_names_resolved: visit_Name's InternalGuppyError), each under that theorem's own hypotheses and model fragment; 113 are "
+    "`unmodelled`; (b) component theorems, for all inputs, on small models of three checker components: `typeCheckArgs_never_internal` "
+    "+ `typeCheckArgs_spec` + `zipStrict_internal_iff`, `visitName_internal_iff` + `block_names_resolved` + `succ_names_resolved` + "
+    "`program_analysis_user_errors_only`, `rows_same_keys_partial` + `output_rows_match_acceptable`; the models are tied by "
+    "correspondence to the real type_check_args / visit_Name / check() on generated inputs.",
+    "level_note": "The theorems cover 3 small components and a syntactic inventory; they say nothing about the other 113 internal sites, "
     "about crashes that are not syntactically recognisable sites (AttributeError on None, IndexError, set.pop), about lowering or tracing. "
     "For those the evidence is the search only (sampling). `guarded` means a theorem about a *model* of the guarding mechanism exists, "
     "under that theorem's own hypotheses (e.g. C03's expression fragment).",
